@@ -2,6 +2,12 @@
 # Regenerates MANIFEST.json from the table below (single source of truth).
 import json
 CHECKS = {
+ "C08": dict(cat="exploration", technique="runtime monitor: generator-known-answer over dependency syntax with hostile trivia; independent position mapping; includes() probing; corpus slice oracle",
+   text="Programs are assembled from 22 dependency-bearing construct kinds, pragmas and hostile trivia (non-ASCII, astral, combining, CRLF, escapes); the generator records the exact token it wrote for every specifier. The real analyser's output must be in bijection with them in source order, every range must slice (through an independent line/scalar-column mapping) to exactly that token, the text must equal the unescaped value, and Dependency::includes is probed at every position of every range. 25 000 programs / 2M position probes quick; plus every JS/TS source embedded in tests/specs.",
+   note="no BOM at analyser level (the graph strips it while decoding; deno_ast rejects it); pragmas are placed on their own line", ref="§6 C08"),
+ "C13": dict(cat="exploration", technique="runtime monitor: serde round trip over generated and hand-built module infos; v1 upgrade known-answer; relational check embedded-vs-parsed registry builds",
+   text="(a) from_value(to_value(info)) == info with stable JSON for the ModuleInfo of every generated program and for hand-built values covering every field/variant; (b) generated moduleGraph1 entries through JsrPackageVersionInfo::module_info must keep every @deno-types (text and range); (c) each generated registry world is built from parsed sources and from module info embedded as moduleGraph2/moduleGraph1 (computed by this analyser), with registry files cached and uncached: serialised graphs identical.",
+   note="embedded info is produced by the same analyser from the served sources (the statement's proviso)", ref="§4 C13"),
  "C05": dict(cat="exploration", technique="runtime monitor: checksum protocol automaton over the loader/locker event log + end-state check with a verifying loader and tampered bytes",
    text="Every call the real build makes to a verifying scripted loader and to a recording locker is logged; a checker written from the statement (known(u) from the harness's own lockfile and manifests) enforces presentation on every content-bearing call (K1), admission (K2: served bytes hash to the known checksum; a resource tampered on every path never becomes a module), retry discipline (K3), checksummed-redirect rejection (K4), faithful recording exactly once (K5) and no overwrite (K6) across 19 load paths x lockfile states x tampering x BOMs x cached/uncached registry files x prefer_cached.",
    note="prefer_cached existence probes are exempt from K1 (content discarded); non-UTF-8 recording is a known finding", ref="§3 C05, Appendix C"),
